@@ -850,3 +850,35 @@ func ErrReturns(fn *ssa.Function) []*ssa.Return {
 	}
 	return out
 }
+
+// FlatField is one field of a struct as the rules see it: embedded module
+// structs are flattened (their fields count as fields of the owner), private
+// grouping structs contribute dotted names ("hdrs.sent"), as FieldOf reports.
+type FlatField struct {
+	Name string
+	Var  *types.Var
+}
+
+// FlatFields lists the fields of st in declaration order, flattened.
+func FlatFields(st *types.Struct) []FlatField {
+	var out []FlatField
+	var rec func(st *types.Struct, prefix string, depth int)
+	rec = func(st *types.Struct, prefix string, depth int) {
+		for i := 0; i < st.NumFields(); i++ {
+			f := st.Field(i)
+			if in, isS := f.Type().Underlying().(*types.Struct); isS && moduleType(f.Type()) && depth < 3 {
+				if f.Embedded() {
+					rec(in, prefix, depth+1)
+					continue
+				}
+				if n, _ := f.Type().(*types.Named); n != nil && !n.Obj().Exported() && n.NumMethods() == 0 {
+					rec(in, prefix+FieldName(st, i)+".", depth+1)
+					continue
+				}
+			}
+			out = append(out, FlatField{prefix + FieldName(st, i), f})
+		}
+	}
+	rec(st, "", 0)
+	return out
+}
